@@ -190,29 +190,10 @@ private:
 
         for( uint32_t x = 0; x < this->_scanline_length; ++x )
         {
-            for( uint32_t k = 0; ; )
-            {
-                int ch = this->_io_dev.getc_unchecked();
-
-                if( isdigit( ch ))
-                {
-                    buf[ k++ ] = static_cast< char >( ch );
-                }
-                else if( k )
-                {
-                    buf[ k ] = 0;
-                    break;
-                }
-                else if( ch == EOF || !isspace( ch ))
-                {
-                    return;
-                }
-            }
+            unsigned int const value = this->read_text_sample();
 
             if( process )
             {
-                int value = atoi( buf );
-
                 if( this->_info._max_value == 1 )
                 {
                     using channel_t = typename channel_type<typename get_pixel_type<View_Dst>::type>::type;
@@ -343,10 +324,6 @@ private:
                                  );
         }
     }
-
-private:
-
-    char buf[16];
 
 };
 
